@@ -208,10 +208,10 @@ def run(ctx, rep):
     rep.floor('H2', 'python: helper-token occurrences', n, 12)
     n = pair_tokens(ctx, rep, T, 'swift', SWIFT_TOKENS, 'store', set())
     rep.floor('H2', 'swift: helper-token occurrences', n, 1)
-    python_typevars(ctx, rep, T)
-    python_translation_keys(ctx, rep, T)
-    scala_scan(ctx, rep, T)
-    flush(ctx, rep, T)
+    rep.section(python_typevars, ctx, rep, T)
+    rep.section(python_translation_keys, ctx, rep, T)
+    rep.section(scala_scan, ctx, rep, T)
+    rep.section(flush, ctx, rep, T)
 
 
 def python_typevars(ctx, rep, T):
